@@ -126,6 +126,23 @@ check('C17', 'DESIGN.md 4/C17',
       'Trusts inspect.signature of the current Server/Client classes as the '
       'definition of "the same-named parameter".')
 
+check('C09', 'DESIGN.md 4/C09', MB,
+      'Sequences of server events (ids None/0/any, function, catch-all and '
+      'class-based handlers, sync/coroutine) and ACKs (right, repeated, '
+      'unknown, other-namespace ids) interleaved with client emits with '
+      'callbacks and call() on several namespaces; handler log, outgoing ACK '
+      'frames and callback log compared with a model of outstanding '
+      'callbacks per namespace.', TBC)
+check('C10', 'DESIGN.md 4/C10',
+      'fault-sequence enumeration (all attempt-outcome patterns up to a '
+      'bound) plus Hypothesis-sampled configurations, with the wait '
+      'primitives replaced by recording ones (virtual time for asyncio)',
+      'For every cause of loss, configuration and outcome pattern the '
+      'recorded back-off waits, the number and parameters of the attempts, '
+      'the CONNECT frames, the handler invocations and the number of efforts '
+      'are compared with the documented policy; follow-up losses after a '
+      'success and after a finished effort are included.', TBC)
+
 NOT_BUILT = {}
 
 
